@@ -28,8 +28,8 @@ from hypothesis import strategies as st
 IDENT_T = ["a@", "fn_@", "Var@", "_x@", "ARG_@", "v@_name"]
 UNQ_T = ["a-@.b", "@", "x@/y", "@.5", "-D@", "a@+b", "k@=v", "a@:b", "<@>", "a@,b", "é@", "x@*",
          "e\u0301@", "\u212a@\u00b2", "%d@", "100%%@"]      # decomposed / compatibility characters, printf-like text
-QUOTED_T = ['"q@"', '"two words @"', '"a;b;@"', '"#@"', '"@ ${v}"', '"esc\\"@"', '"(@)"', '"[@]"', '" @ "',
-            '"tab\\t@"', '"$<@>"', '"@@"', '"ü@"']
+QUOTED_T = ['"q@"', '"two words @"', '"a;b;@"', '"#@"', '"line\\nbreak@"', '"@ ${v}"', '"esc\\"@"', '"(@)"', '"[@]"', '" @ "',
+            '"tab\\t@"', '"$<@>"', '"@@"', '"ü@"', '"cr\\r@\\;semi"']
 VAR_T = ["${v@}", "${a@_b}", "$ENV{E@}", "${${n@}}", "pre${v@}post"]
 BRACKET_T = ["[[b@]]", "[=[b@]=]", "[=[x]]@]=]", "[[b @ c]]", "[==[]=]@]==]", "[[(@]]", '[["@]]', "[[#@]]"]
 SINGLE_T = IDENT_T + UNQ_T + QUOTED_T + VAR_T + BRACKET_T
@@ -151,7 +151,9 @@ def _impl(p, depth, kind):
     d = {
         "selfname": st.sampled_from(["self", "self", "self", "this", "_self", "SELF", "me"]),
         "cmd": st.sampled_from(["function", "function", "macro"]),
-        "params": st.lists(ident(), min_size=0, max_size=5),   # after name (and self for members)
+        # after name (and self for members): identifiers, sometimes names with characters special in regular expressions
+        "params": st.lists(weighted((6, ident()), (1, st.sampled_from(["vals@[]", "*args@", "c++@", "row@[", "x@**", "p@{}", "a@|b"]))),
+                           min_size=0, max_size=5),
         "body": items(p, depth - 1, body_kinds, p.body_max),
     }
     if p.impl_doc:
